@@ -5,6 +5,7 @@ import (
 	"fmt"
 	"os"
 	"path/filepath"
+	"runtime"
 	"sort"
 	"strconv"
 	"strings"
@@ -482,8 +483,34 @@ func c18Open(dir string) (*c18World, error) {
 	return w, err
 }
 
+// c18Watchdog ends a run that hangs or eats memory (a shared parser instance driven from several
+// goroutines can do both) with a distinctive exit code instead of waiting for the OOM killer
+func c18Watchdog(limit time.Duration) {
+	start := time.Now()
+	for {
+		time.Sleep(250 * time.Millisecond)
+		var ms runtime.MemStats
+		runtime.ReadMemStats(&ms)
+		if ms.HeapAlloc > 3<<30 {
+			fmt.Fprintf(os.Stderr, "c18: watchdog: heap grew to %d MiB\n", ms.HeapAlloc>>20)
+			os.Exit(8)
+		}
+		if time.Since(start) > limit {
+			buf := make([]byte, 1<<16)
+			n := runtime.Stack(buf, true)
+			fmt.Fprintf(os.Stderr, "c18: watchdog: run exceeded %v\n%s\n", limit, buf[:n])
+			os.Exit(7)
+		}
+	}
+}
+
 func runC18(o *opts) error {
 	c17Quiet()
+	if o.thorough() {
+		go c18Watchdog(20 * time.Minute)
+	} else {
+		go c18Watchdog(100 * time.Second)
+	}
 	cases := newLineWriter(o.out, "cases.txt")
 	impl := newLineWriter(o.out, "impl.txt")
 	defer cases.close()
@@ -595,7 +622,23 @@ func runC18(o *opts) error {
 			}
 		}
 		commit := !r.chance(10)
-		werr := w.writerTx(ops, commit, version+1, int64(len(next.items)))
+		var werr error
+		if o.get("inject", "") == "split" && commit && len(ops) > 1 {
+			// self-test of the comparison (fault injection, never used by the check itself): the
+			// writer's transaction becomes visible in two pieces
+			_ = w.db.Update(nil, func(ctx boltz.MutateContext) error {
+				for _, op := range ops[:len(ops)/2] {
+					if e := w.apply(ctx, op); e != nil {
+						return e
+					}
+				}
+				return nil
+			})
+			time.Sleep(200 * time.Microsecond)
+			werr = w.writerTx(ops[len(ops)/2:], true, version+1, int64(len(next.items)))
+		} else {
+			werr = w.writerTx(ops, commit, version+1, int64(len(next.items)))
+		}
 		parts := make([]string, 0, len(ops))
 		for _, op := range ops {
 			parts = append(parts, op.String())
